@@ -46,14 +46,6 @@ impl SyncHandle {
     { unimplemented!() }
 }
 
-/// iroh `PublicKey::from_bytes`: decodes 32 bytes or fails
-#[verifier::external_body]
-struct KeyParsingError { _p: u8 }
-impl PublicKey {
-    #[verifier::external_body]
-    fn from_bytes(bytes: &[u8; 32]) -> std::result::Result<PublicKey, KeyParsingError> { unimplemented!() }
-}
-
 /// Stand-in for the `Vec<PeerIdBytes>` returned by `get_sync_peers`, its `into_iter()` and the iterator adaptor
 /// `filter_map`: `Iterator::filter_map` is a provided trait method (no `assume_specification` possible) and its result
 /// type `FilterMap` is outside vstd. INHERENT methods with the same names shadow the trait methods, so the body of
